@@ -101,7 +101,9 @@ def run_sym(
             if st is None:
                 st, model = prove(claim, pc, logic=logic, timeout_ms=timeout_ms)
             stats[st] += 1
-            check.obligation(group, st)
+            # honesty of the counts: a claim that was already `true` when it reached the solver (ground fact of the harness, or
+            # cell-by-cell identity of structurally identical terms) is counted apart from solver-discharged obligations
+            check.obligation(group, "identical-terms-or-ground" if (st == "proved" and z3.is_true(claim)) else st)
             if first and sample is not None:
                 check.sample({"group": group, "case": sample, "obligation": label, "path_condition_size": len(pc), "status": st})
                 first = False
